@@ -2,7 +2,7 @@
 import nat
 
 RULE = ("one case = one seed = (generated model) x (scenario S1 parse/compile/makeData/3 steps/copyData/copyModel/saveModel/loadModelBuffer, "
-        "S2 compile/makeData/recompile/copySpec/saveXMLString/saveModel, or S3 makeData/step/resetDataKeyframe/setKeyframe/threadpool create+"
+        "S2 compile/makeData/recompile/spec edit through the mjs API (new body, joint, geoms)/recompile in place/copySpec/saveXMLString/saveModel, or S3 makeData/step/resetDataKeyframe/setKeyframe/threadpool create+"
         "step+destroy/copyData into existing); a dry run counts N calls of mju_user_malloc, then for EVERY k in 1..N the k-th call returns NULL "
         "(exhaustive single faults), then 12 seeded multi-fault runs; 'faulted_executions' counts them; each is followed by the fault-free "
         "scenario in the same process, whose model bytes must equal the baseline; non-trivial = every model/scenario; distinct = hash of "
